@@ -223,7 +223,9 @@ type opT struct {
 	Ext     []extT   `json:"x,omitempty"` // openapi.WithOperationExtension
 	Tags    []string `json:"t,omitempty"` // openapi.WithTags, one call per element group (see options)
 	Dep     bool     `json:"dep,omitempty"`
-	Sec     []secT   `json:"sec,omitempty"` // openapi.WithSecurity
+	Sec     []secT   `json:"sec,omitempty"`  // openapi.WithSecurity
+	Cons    []string `json:"cons,omitempty"` // openapi.WithConsumes (when non-empty)
+	Prod    []string `json:"prod,omitempty"` // openapi.WithProduces (when non-empty)
 	// named examples (example.New) of the response with that status, by position in Resps
 	Ex map[int][]exT `json:"e,omitempty"`
 }
@@ -232,6 +234,7 @@ type caseT struct {
 	V31     bool   `json:"v31"`
 	Strict  bool   `json:"strict"`
 	Ops     []opT  `json:"ops"`
+	Cfg     *cfgT  `json:"cfg,omitempty"`   // API-level configuration objects
 	RootExt []extT `json:"rx,omitempty"`    // openapi.WithExtension
 	InfoExt []extT `json:"ix,omitempty"`    // openapi.WithInfoExtension
 	Pause   bool   `json:"pause,omitempty"` // 1.1 s between two of the generations
@@ -320,6 +323,12 @@ func (o *opT) options() []openapi.OperationOption {
 	for _, x := range o.Sec {
 		opts = append(opts, openapi.WithSecurity(x.Scheme, x.Scopes...))
 	}
+	if len(o.Cons) > 0 {
+		opts = append(opts, openapi.WithConsumes(o.Cons...))
+	}
+	if len(o.Prod) > 0 {
+		opts = append(opts, openapi.WithProduces(o.Prod...))
+	}
 	return opts
 }
 
@@ -336,6 +345,9 @@ func (c *caseT) apiOptions(validation bool) []openapi.Option {
 	}
 	for _, x := range c.InfoExt {
 		opts = append(opts, openapi.WithInfoExtension(x.K, payload(x.P)))
+	}
+	if c.Cfg != nil {
+		opts = append(opts, c.Cfg.options()...)
 	}
 	return opts
 }
@@ -1036,7 +1048,11 @@ func dataIntact(c *caseT, js []byte) bool {
 			}
 			rs, _ := resps[strconv.Itoa(st)].(map[string]any)
 			content, _ := rs["content"].(map[string]any)
-			mt, _ := content["application/json"].(map[string]any)
+			outCT := "application/json"
+			if len(o.Prod) > 0 {
+				outCT = o.Prod[0]
+			}
+			mt, _ := content[outCT].(map[string]any)
 			if mt == nil {
 				return false
 			}
@@ -1420,6 +1436,8 @@ func emit(id string, c *caseT, st *hx.Stats) string {
 				str(ol, x.Scheme)
 				ol.Strs(x.Scopes)
 			}
+			ol.Strs(o.Cons)
+			ol.Strs(o.Prod)
 		}
 	}()
 	if typeErr {
@@ -1427,6 +1445,15 @@ func emit(id string, c *caseT, st *hx.Stats) string {
 	}
 	l.Tok(e.env())
 	l.Tok(strings.TrimPrefix(ol.String(), " "))
+	// the configured server urls (the only API-level configuration the structured document carries)
+	if c.Cfg != nil {
+		l.Nat(len(c.Cfg.Servers))
+		for _, x := range c.Cfg.Servers {
+			str(l, x[0])
+		}
+	} else {
+		l.Nat(0)
+	}
 	in := l.String()
 	l.Sep()
 	if pending != nil {
@@ -1481,7 +1508,7 @@ func emit(id string, c *caseT, st *hx.Stats) string {
 		if c.carriesCollections() || sha256.Sum256(off.json)[0]%3 == 0 {
 			stable = stable && reuseStable(c, off.json)
 		}
-		dataOK = dataIntact(c, off.json)
+		dataOK = dataIntact(c, off.json) && configIntact(c, off.json)
 		if stable && c.Exec {
 			stable = execDigest(c) == digest(off.json)
 		}
@@ -1846,6 +1873,16 @@ func genOp(r *hx.Rand) opT {
 		}
 	}
 	o.Dep = r.Chance(1, 12)
+	if r.Chance(1, 7) {
+		for k, m := 0, r.Range(1, 3); k < m; k++ {
+			o.Cons = append(o.Cons, hx.Pick(r, mediaTypes))
+		}
+	}
+	if r.Chance(1, 9) {
+		for k, m := 0, r.Range(1, 2); k < m; k++ {
+			o.Prod = append(o.Prod, hx.Pick(r, mediaTypes[:8]))
+		}
+	}
 	if r.Chance(1, 6) {
 		for k, m := 0, r.Range(1, 2); k < m; k++ {
 			x := secT{Scheme: hx.Pick(r, []string{"bearerAuth", "oauth2", "apiKey"})}
@@ -1917,6 +1954,9 @@ func genCase(r *hx.Rand) caseT {
 	}
 	for i := 0; i < n; i++ {
 		c.Ops = append(c.Ops, genOp(r))
+	}
+	if r.Chance(1, 8) {
+		c.Cfg = genCfg(r, c.V31)
 	}
 	if r.Chance(1, 12) && len(c.Ops) > 0 {
 		m := caseT{V31: r.Chance(1, 2)}
@@ -2007,6 +2047,13 @@ func fixedCases() []caseT {
 						Resps: []respT{{200, TX{K: "data", I: 1}}, {404, ct("pa.Item")}},
 						Ex:    map[int][]exT{1: {{"schema-like", "s", 4}, {"hal", "", 5}}}},
 					{Ctor: "POST", Path: "/forms", Summary: "s", Resps: []respT{{201, TX{K: "data", I: 10}}, {400, TX{K: "data", I: 6}}}}}},
+			// API-level configuration (contact, license, external docs, servers, tags, four kinds of security
+			// scheme, OAuth2 flows with nil / empty / named scopes, default security); request bodies whose
+			// WithConsumes list has no well-formed entry, several media types
+			caseT{V31: v31, Cfg: fixedCfg(), Ops: []opT{
+				{Ctor: "POST", Path: "/up/:id", Summary: "s", Req: &TX{K: "req", I: 0}, Cons: []string{"application/json, application/xml"}, Resps: ok(ct("pa.Item"))},
+				{Ctor: "PUT", Path: "/up/:id", Summary: "s", Req: &TX{K: "req", I: 0}, Cons: []string{"multipart/form-data; boundary", ""}, Prod: []string{"application/xml", "application/json"}, Resps: ok(ct("pa.Item"))},
+				{Ctor: "PATCH", Path: "/up/:id", Summary: "s", Req: &TX{K: "req", I: 0}, Cons: []string{""}}}},
 			// well-known types with a fixed JSON form, plain — then, in between, the same types behind
 			// pointers and with constraints — then plain again (same process)
 			caseT{V31: v31, Ops: []opT{{Ctor: "GET", Path: "/wk", Resps: ok(ct("pa.WellKnown"))}},
